@@ -23,6 +23,102 @@ Lemma src_cycle_err_ok : src_cycle_err = ValueErr.
 Proof. reflexivity. Qed.
 
 (* ------------------------------------------------------------------ *)
+(* from a build tag to a build number                                   *)
+
+Lemma src_tag_routes_ok : src_tag_routes = [RouteKnown; RouteGuessIsNotNone; RouteSaved].
+Proof. reflexivity. Qed.
+
+Lemma finalize_release_l : forall saved M m n, finalize_tag saved (TagRelease M m, n) = (M, m, n).
+Proof. reflexivity. Qed.
+Lemma finalize_full_l : forall saved M m n, finalize_tag saved (TagFull M m, n) = (M, m, n).
+Proof. reflexivity. Qed.
+Lemma finalize_word_l : forall n,
+  (forall M m, finalize_tag (Some (M, m)) (TagWord, n) = (M, m, n)) /\
+  finalize_tag None (TagWord, n) = (qm, qm, n).
+Proof. intros n. split; reflexivity. Qed.
+
+(* the build number is found in a version map under exactly its own key *)
+Lemma bn_eqb_eq : forall a b : bn, bn_eqb a b = true <-> a = b.
+Proof.
+  intros [[a1 a2] a3] [[b1 b2] b3]. unfold bn_eqb. rewrite !andb_true_iff, !Z.eqb_eq.
+  split; [intros [[-> ->] ->]; reflexivity | intros H; injection H as -> -> ->; auto].
+Qed.
+
+Definition int_bn (a : bn) : Prop := let '(a1, a2, a3) := a in (0 <= a1 /\ 0 <= a2 /\ 0 <= a3)%Z.
+Definition lex_le (a b : bn) : Prop :=
+  let '(a1, a2, a3) := a in let '(b1, b2, b3) := b in
+  (a1 < b1 \/ (a1 = b1 /\ (a2 < b2 \/ (a2 = b2 /\ a3 <= b3))))%Z.
+
+Lemma bn_leb_int : forall a b, int_bn a -> int_bn b -> (bn_leb a b = true <-> lex_le a b).
+Proof.
+  intros [[a1 a2] a3] [[b1 b2] b3] (A1 & A2 & A3) (B1 & B2 & B3).
+  unfold bn_leb, lex_le, cmp_opt_ints, is_int.
+  repeat match goal with |- context [Z.leb 0 ?x] => replace (Z.leb 0 x) with true by (symmetry; apply Z.leb_le; assumption) end.
+  cbn [andb].
+  destruct (Z.eqb (a1 - b1) 0) eqn:E1; cbn [negb].
+  - apply Z.eqb_eq in E1. destruct (Z.eqb (a2 - b2) 0) eqn:E2; cbn [negb].
+    + apply Z.eqb_eq in E2. rewrite Z.leb_le. lia.
+    + apply Z.eqb_neq in E2. rewrite Z.ltb_lt. lia.
+  - apply Z.eqb_neq in E1. rewrite Z.ltb_lt. lia.
+Qed.
+
+Lemma bn_leb_qm : forall a n, int_bn a ->
+  bn_leb a (qm, qm, n) = true /\ bn_leb (qm, qm, n) a = false.
+Proof.
+  intros [[a1 a2] a3] n (A1 & A2 & A3). unfold bn_leb, cmp_opt_ints, is_int, qm.
+  replace (Z.leb 0 a1) with true by (symmetry; apply Z.leb_le; assumption).
+  split; reflexivity.
+Qed.
+
+Lemma cmp_opt_total : forall a b, (cmp_opt_ints a b <= 0 \/ cmp_opt_ints b a <= 0)%Z.
+Proof.
+  intros a b. unfold cmp_opt_ints, is_int.
+  destruct (Z.leb 0 a) eqn:A, (Z.leb 0 b) eqn:B; cbn [andb]; lia.
+Qed.
+Lemma cmp_opt_anti : forall a b, (cmp_opt_ints a b = 0 <-> cmp_opt_ints b a = 0)%Z.
+Proof.
+  intros a b. unfold cmp_opt_ints, is_int.
+  destruct (Z.leb 0 a) eqn:A, (Z.leb 0 b) eqn:B; cbn [andb]; lia.
+Qed.
+Lemma cmp_opt_sign : forall a b, (cmp_opt_ints a b < 0 <-> 0 < cmp_opt_ints b a)%Z.
+Proof.
+  intros a b. unfold cmp_opt_ints, is_int.
+  destruct (Z.leb 0 a) eqn:A, (Z.leb 0 b) eqn:B; cbn [andb]; lia.
+Qed.
+
+Lemma bn_leb_total : forall a b, bn_leb a b = true \/ bn_leb b a = true.
+Proof.
+  intros [[a1 a2] a3] [[b1 b2] b3]. unfold bn_leb.
+  pose proof (cmp_opt_anti a1 b1) as H1. pose proof (cmp_opt_sign a1 b1) as S1.
+  pose proof (cmp_opt_anti a2 b2) as H2. pose proof (cmp_opt_sign a2 b2) as S2.
+  pose proof (cmp_opt_total a3 b3) as T3. pose proof (cmp_opt_sign b1 a1) as S1'. pose proof (cmp_opt_sign b2 a2) as S2'.
+  destruct (Z.eqb (cmp_opt_ints a1 b1) 0) eqn:E1, (Z.eqb (cmp_opt_ints b1 a1) 0) eqn:E1',
+           (Z.eqb (cmp_opt_ints a2 b2) 0) eqn:E2, (Z.eqb (cmp_opt_ints b2 a2) 0) eqn:E2';
+    rewrite ?Z.eqb_eq, ?Z.eqb_neq in *; cbn [negb]; rewrite ?Z.leb_le, ?Z.ltb_lt; lia.
+Qed.
+
+(* get_builds_numbers loses and invents nothing: a permutation of the finalized tags *)
+Lemma bn_insert_perm : forall x l, Permutation (bn_insert x l) (x :: l).
+Proof.
+  intros x l. induction l as [|y r IH]; cbn [bn_insert]; [apply Permutation_refl|].
+  destruct (bn_leb x y); [apply Permutation_refl|].
+  eapply perm_trans; [apply perm_skip, IH | apply perm_swap].
+Qed.
+Lemma bn_sort_perm : forall l, Permutation (bn_sort l) l.
+Proof.
+  induction l as [|x r IH]; [apply Permutation_refl|]. unfold bn_sort in *. cbn [fold_right].
+  eapply perm_trans; [apply bn_insert_perm | apply perm_skip, IH].
+Qed.
+Lemma builds_numbers_perm : forall saved tags,
+  Permutation (builds_numbers saved tags) (map (finalize_tag saved) tags).
+Proof. intros. apply bn_sort_perm. Qed.
+
+(* a release tag is looked up by a pin iff the pin is its major.minor.build -- 0 is a number like any other *)
+Lemma release_tag_pin_l : forall saved M m n pin,
+  bn_eqb (finalize_tag saved (TagRelease M m, n)) pin = true <-> pin = (M, m, n).
+Proof. intros. rewrite finalize_release_l, bn_eqb_eq. split; congruence. Qed.
+
+(* ------------------------------------------------------------------ *)
 (* the component's RBuild graph                                         *)
 
 Section Graph.
